@@ -22,13 +22,13 @@ def main():
     cs = P.load_contracts()
     funcs = a.funcs
     if a.pkg:
-        funcs = [k for k, c in cs.funcs.items() if k.startswith(a.pkg + '::') and not c.assumed and not c.is_iface]
+        funcs = [k for k, c in cs.funcs.items() if k.startswith(a.pkg + '::') and not c.assumed and not c.is_iface and not getattr(c, 'has_cases', False)]
     t0 = time.time()
     inl = [k for k, c in cs.funcs.items() if c.inline]
     prog, missing = load_program(list(funcs) + inl)
     print('export %.1fs missing=%s' % (time.time() - t0, missing))
     for f in funcs:
-        if f not in prog.funcs:
+        if f.split('#')[0] not in prog.funcs:
             print('MISSING', f)
             continue
         t1 = time.time()
